@@ -191,6 +191,52 @@ def check_roundtrip(lx: LayoutExtractor, rep, prefix='C01'):
             p4.append('decode() consumes %s bytes of what encode() emitted as %s' % (cons, ext))
         rep.check(not p4, R('O4'), key(lay, 'extent'), loc,
                   'bytes emitted = total_length() = bytes consumed = %s' % ext, '; '.join(p4))
+        # O9: value conversions are inverse of each other ----------------------------------
+        import ast as _ast
+        from .srcmodel import norm as _norm
+        p9 = []
+        dec_node = lay.dec_f.node
+        enc_codecs, dec_codecs = set(), set()
+        for fn_ in [lay.enc_f.node] + ([c.find_method('__init__').node] if c.find_method('__init__') else []) + \
+                [m.node for m in c.methods.values() if m.kind == 'property']:
+            for n in _ast.walk(fn_):
+                if isinstance(n, _ast.Call) and isinstance(n.func, _ast.Attribute) and n.func.attr == 'encode' \
+                        and (not n.args or isinstance(n.args[0], _ast.Constant) and isinstance(n.args[0].value, str)):
+                    if fn_ is lay.enc_f.node and n.args == [] and isinstance(n.func.value, _ast.Attribute) and \
+                            any(e_[0] == 'v' and e_[1] == 'enc' and e_[2] == n.func.value.attr and i_ < len(lay.dec) and lay.dec[i_][1] == 'child'
+                                for i_, e_ in enumerate(lay.enc)):
+                        continue  # child.encode()
+                    enc_codecs.add((n.args[0].value if n.args else 'utf-8').lower().replace('utf8', 'utf-8'))
+        fixed_s = any(e_[0] == 'f' and e_[1] == 's' for e_ in lay.enc)
+        for n in _ast.walk(dec_node):
+            if not isinstance(n, _ast.Call):
+                continue
+            fn_txt = _norm(n.func)
+            last = fn_txt.rsplit('.', 1)[-1]
+            if isinstance(n.func, _ast.Attribute) and last == 'decode':
+                if n.args and isinstance(n.args[0], _ast.Name):
+                    continue  # Child.decode(stream)
+                if not n.args or (isinstance(n.args[0], _ast.Constant) and isinstance(n.args[0].value, str)):
+                    dec_codecs.add((n.args[0].value if n.args else 'utf-8').lower().replace('utf8', 'utf-8'))
+                    continue
+            if isinstance(n.func, _ast.Attribute) and last in ('strip', 'rstrip', 'lstrip'):
+                arg = n.args[0].value if n.args and isinstance(n.args[0], _ast.Constant) else None
+                if arg != b'\0' or last == 'lstrip' or not fixed_s:
+                    p9.append('%s(%s) on a decoded value removes characters the encoder may have written' %
+                              (last, _norm(n.args[0]) if n.args else ''))
+                continue
+            if isinstance(n.func, _ast.Attribute) and last in ('lower', 'upper', 'replace', 'title', 'swapcase', 'zfill', 'ljust',
+                                                                'rjust', 'center', 'split', 'rsplit', 'partition', 'translate'):
+                p9.append('%s() on a decoded value is not undone by the encoder' % last)
+        for n in _ast.walk(dec_node):
+            if isinstance(n, _ast.Subscript) and isinstance(n.slice, _ast.Slice) and isinstance(n.value, _ast.Call) and \
+                    'read' in _norm(n.value.func):
+                p9.append('a value read from the stream is sliced (%s): bytes are dropped' % _norm(n))
+        if enc_codecs and dec_codecs and enc_codecs != dec_codecs and not (enc_codecs <= {'utf-8', 'ascii'} and dec_codecs <= {'utf-8', 'ascii'}
+                                                                           and ('utf-8' in enc_codecs) == ('utf-8' in dec_codecs)):
+            p9.append('text is encoded with %s but decoded with %s' % (sorted(enc_codecs), sorted(dec_codecs)))
+        rep.check(not p9, R('O9'), key(lay, 'value-conversions'), loc,
+                  'decoder conversions (%s) are the inverse of the encoder\'s' % (', '.join(sorted(dec_codecs)) or 'none'), '; '.join(sorted(set(p9))))
         # loops: O6 / O7 / O8 -------------------------------------------------
         if lay.type_const is not None:
             type_of[c.name] = lay.type_const
